@@ -138,7 +138,7 @@ def coq_op(L, op):
     if k == "Init":
         return f"(OInit {n(op[1])} {coq_bool(op[2])})"
     if k == "Enter":
-        return f"(OInit {n(op[1])} false)"
+        return f"(OEnter {n(op[1])})"
     if k in ("Sp", "Cached", "IdPath", "Doc", "Copy", "DeepCopy", "Pickle"):
         return f"(O{k} {n(op[1])})"
     if k == "Repr":      # repr(job) shows cached_statepoint: the same model operation, read through another door
@@ -605,7 +605,8 @@ class World:
                 H[op[1]].init(force=op[2])
                 return ["unit"]
             if k == "Enter":
-                # `with job:` - init() and chdir into the job directory (model: OInit); left again by the harness-only Exit
+                # `with job:` - Job.open(): init(validate_statepoint=False) and chdir into the job directory (model: OEnter);
+                # left again by the harness-only Exit
                 H[op[1]].open()
                 self.entered.append(H[op[1]])
                 return ["unit"]
